@@ -25,6 +25,8 @@ Round 6: (a') nobody rewrites a default after construction; flat copies of list 
 Optional.pack decides on 'is None' (C08 pair rule).
 Round 7: includes the slot-flow rule and the pack-hook rule of C17 (a keyword for a described field
 needs its flag slot; a field left automatic is computed by its before-pack hook).
+Round 8: a field never rewrites the default of another field object; includes the tobytes rule of
+C11 and the keyword-dict rule of C17.
 """
 import ast
 
